@@ -118,19 +118,23 @@ Proof.
   - unfold do_set_replication. destruct (repl_invalid c); [discriminate|].
     destruct (repl_init s c (c_repl (served s)) f) as [s1 ie]. destruct ie; [discriminate|].
     assert (G : forall e, repl_commit s1 c (c_repl (served s)) e f = (s', ROk) -> stored s' = Some (served s')).
-    { intros e. unfold repl_commit. destruct (e && (rp_max c <=? 0))%bool; [discriminate|].
-      match goal with |- context [persist ?a ?b ?c] => destruct (persist a b c) as [s3 ok] eqn:E end.
-      destruct (persist_spec _ _ _ _ _ E) as (A&_&_&_&_&G). destruct ok; intros H; inv H. rewrite A. apply G; reflexivity. }
+    { intros e. unfold repl_commit. destruct e.
+      - destruct (rp_max c <=? 0); [discriminate|].
+        destruct (set_rule_write s1 (Rule (rp_max c) (rp_labels c)) f 0) as [s2 okr]. destruct okr; cbn [negb]; [|discriminate].
+        match goal with |- context [persist ?a ?b ?c] => destruct (persist a b c) as [s3 ok] eqn:E end.
+        destruct (persist_spec _ _ _ _ _ E) as (A&_&_&_&_&G). destruct ok.
+        + intros H; inv H. rewrite A. apply G; reflexivity.
+        + destruct (rp_max (c_repl (served s)) <=? 0); discriminate.
+      - match goal with |- context [persist ?a ?b ?c] => destruct (persist a b c) as [s3 ok] eqn:E end.
+        destruct (persist_spec _ _ _ _ _ E) as (A&_&_&_&_&G). destruct ok; intros H; inv H. rewrite A. apply G; reflexivity. }
     destruct (repl_check s1 c (c_repl (served s))) as [[|]|]; [apply G|discriminate|apply G].
   - unfold do_set_pdserver. destruct (negb (dash_keyword (ps_dash c)) && negb (is_member_url _))%bool; [discriminate|].
     destruct (pd_invalid _); [discriminate|].
     intros H. destruct (swap_persist_spec _ _ _ _ _ H) as (_&_&_&_&[(_&A&B)|(E&_)]); [congruence|discriminate].
   - unfold do_set_label.
-    match goal with |- context [persist ?a ?b ?c] => destruct (persist a b c) as [s1 ok] eqn:E end.
-    destruct (persist_spec _ _ _ _ _ E) as (A&_&_&_&_&G). destruct ok; intros H; inv H. rewrite A. apply G; reflexivity.
+    intros H. destruct (swap_persist_spec _ _ _ _ _ H) as (_&_&_&_&[(_&A&B)|(E&_)]); [congruence|discriminate].
   - unfold do_del_label.
-    match goal with |- context [persist ?a ?b ?c] => destruct (persist a b c) as [s1 ok] eqn:E end.
-    destruct (persist_spec _ _ _ _ _ E) as (A&_&_&_&_&G). destruct ok; intros H; inv H. rewrite A. apply G; reflexivity.
+    intros H. destruct (swap_persist_spec _ _ _ _ _ H) as (_&_&_&_&[(_&A&B)|(E&_)]); [congruence|discriminate].
   - unfold do_set_version. destruct v as [x|]; [|discriminate].
     intros H. destruct (swap_persist_spec _ _ _ _ _ H) as (_&_&_&_&[(_&A&B)|(E&_)]); [congruence|discriminate].
   - unfold do_set_mode. destruct (negb (mode_valid (rm_mode c))); [discriminate|].
@@ -145,57 +149,69 @@ Proof.
 Qed.
 
 (* ---------- statement 2: a rejected change leaves the served configuration exactly as it was ---------- *)
-Lemma with_sched_back c x : with_sched (with_sched c x) (c_sched c) = c.
-Proof. destruct c; reflexivity. Qed.
 Lemma with_repl_back c x : with_repl (with_repl c x) (c_repl c) = c.
-Proof. destruct c; reflexivity. Qed.
-Lemma with_lp_lp c x y : with_lp (with_lp c x) y = with_lp c y.
-Proof. destruct c; reflexivity. Qed.
-Lemma with_lp_same c : with_lp c (c_lp c) = c.
 Proof. destruct c; reflexivity. Qed.
 Lemma with_rm_back c x : with_rm (with_rm c x) (c_rm c) = c.
 Proof. destruct c; reflexivity. Qed.
 
-(* the label-property roll-back restores the map exactly when the inverse operation happens to undo the change *)
-Definition label_rollback_exact (m : lprop) (o : op) : Prop :=
-  match o with
-  | OSetLabel t k v _ => lp_delete (lp_set m t k v) t k v = m
-  | ODelLabel t k v _ => lp_set (lp_delete m t k v) t k v = m
-  | _ => True
-  end.
+Lemma str_list_eqb_eq a b : str_list_eqb a b = true -> a = b.
+Proof. apply list_eqb_eq. intros x y H. apply String.eqb_eq; exact H. Qed.
 
-Theorem rejected_keeps_served_partial_pf s o s' r :
-  run_cmd s o = (s', r) -> r <> ROk -> label_rollback_exact (c_lp (served s)) o -> served s' = served s.
+Lemma set_rule_write_spec s r f idx s' ok :
+  set_rule_write s r f idx = (s', ok) ->
+  served s' = served s /\ stored s' = stored s /\ rm_init s' = rm_init s /\ mm s' = mm s /\
+  (ok = true -> srule s' = Some r /\ strule s' = Some r) /\
+  (ok = false -> srule s' = srule s /\ (strule s' = strule s \/ (strule s' = Some r /\ wr f GRule idx = (true, false)))).
 Proof.
-  destruct o as [c f|c f|c f|t k v f|t k v f|v f|c f]; cbn [run_cmd label_rollback_exact]; intros H Hr Hl.
+  unfold set_rule_write. destruct (wr_cases f GRule idx) as [E|[E|E]]; rewrite E; intros H; inv H; cbn;
+    repeat split; auto; discriminate.
+Qed.
+
+Lemma repl_init_spec s c old f s1 ie :
+  repl_init s c old f = (s1, ie) ->
+  served s1 = served s /\ stored s1 = stored s /\ mm s1 = mm s /\
+  (rp_pr old = true -> s1 = s /\ ie = false).
+Proof.
+  unfold repl_init. intros H.
+  destruct (negb (Bool.eqb (rp_pr c) (rp_pr old)) && rp_pr c && negb (rm_init s))%bool eqn:Eg.
+  - assert (Hp : rp_pr old = true -> False).
+    { intros Hp. rewrite Hp in Eg. destruct (rp_pr c); cbn in Eg; discriminate. }
+    destruct (strule s); [inv H; split; [reflexivity|split; [reflexivity|split; [reflexivity|intros X; destruct (Hp X)]]]|].
+    destruct (wr f GRule 0) as [[|] [|]]; inv H; (split; [reflexivity|split; [reflexivity|split; [reflexivity|intros X; destruct (Hp X)]]]).
+  - inv H. repeat split; auto.
+Qed.
+
+(* the six sections held by PersistOptions: every setter, every value, every fault *)
+Theorem rejected_keeps_served_pf s o s' r : run_cmd s o = (s', r) -> r <> ROk -> served s' = served s.
+Proof.
+  destruct o as [c f|c f|c f|t k v f|t k v f|v f|c f]; cbn [run_cmd]; intros H Hr.
   - unfold do_set_schedule in H. destruct (sched_invalid c); [inv H; reflexivity|]. destruct (sched_deprecated c); [inv H; reflexivity|].
     destruct (swap_persist_spec _ _ _ _ _ H) as (_&_&_&_&[(E&_)|(_&E)]); [congruence|exact E].
   - unfold do_set_replication in H. destruct (repl_invalid c); [inv H; reflexivity|].
     destruct (repl_init s c (c_repl (served s)) f) as [s1 ie] eqn:Ei.
-    assert (S1 : served s1 = served s).
-    { unfold repl_init in Ei. destruct (negb (Bool.eqb (rp_pr c) (rp_pr (c_repl (served s)))) && rp_pr c && negb (rm_init s))%bool; [|inv Ei; reflexivity].
-      destruct (strule s); [inv Ei; reflexivity|]. destruct (wr f GRule 0) as [[|] [|]]; inv Ei; reflexivity. }
+    destruct (repl_init_spec _ _ _ _ _ _ Ei) as (S1&_).
     destruct ie; [inv H; exact S1|].
     assert (G : forall e, repl_commit s1 c (c_repl (served s)) e f = (s', r) -> served s' = served s).
-    { intros e. unfold repl_commit. destruct (e && (rp_max c <=? 0))%bool.
-      - intros H1; inv H1. destruct e; cbn; exact S1.
+    { intros e. unfold repl_commit. destruct e.
+      - destruct (rp_max c <=? 0); [intros H1; inv H1; exact S1|].
+        destruct (set_rule_write s1 (Rule (rp_max c) (rp_labels c)) f 0) as [s2 okr] eqn:Ew.
+        destruct (set_rule_write_spec _ _ _ _ _ _ Ew) as (S2&_). destruct okr; cbn [negb]; [|intros H1; inv H1; congruence].
+        match goal with |- context [persist ?a ?b ?c] => destruct (persist a b c) as [s3 ok] eqn:E end.
+        destruct (persist_spec _ _ _ _ _ E) as (A&_). destruct ok; [intros H1; inv H1; congruence|].
+        assert (Q : served (set_conf s3 (with_repl (served s3) (c_repl (served s)))) = served s)
+          by (cbn; rewrite A; cbn; rewrite S2, S1; apply with_repl_back).
+        destruct (rp_max (c_repl (served s)) <=? 0); intros H1; inv H1; [exact Q|].
+        match goal with |- context [set_rule_write ?a ?b ?c ?d] => destruct (set_rule_write a b c d) as [s5 ok5] eqn:E5 end.
+        destruct (set_rule_write_spec _ _ _ _ _ _ E5) as (S5&_). cbn [fst]. rewrite S5. exact Q.
       - match goal with |- context [persist ?a ?b ?c] => destruct (persist a b c) as [s3 ok] eqn:E end.
-        destruct (persist_spec _ _ _ _ _ E) as (A&_&_&_&_&_). destruct ok; intros H1; inv H1; [congruence|].
-        assert (served (set_conf s3 (with_repl (served s3) (c_repl (served s)))) = served s).
-        { cbn. rewrite A. cbn. destruct e; cbn; rewrite S1; apply with_repl_back. }
-        destruct e; cbn in *; assumption. }
+        destruct (persist_spec _ _ _ _ _ E) as (A&_). destruct ok; intros H1; inv H1; [congruence|].
+        cbn. rewrite A. cbn. rewrite S1. apply with_repl_back. }
     destruct (repl_check s1 c (c_repl (served s))) as [[|]|]; [apply G with true; exact H|inv H; exact S1|apply G with false; exact H].
   - unfold do_set_pdserver in H. destruct (negb (dash_keyword (ps_dash c)) && negb (is_member_url _))%bool; [inv H; reflexivity|].
     destruct (pd_invalid _); [inv H; reflexivity|].
     destruct (swap_persist_spec _ _ _ _ _ H) as (_&_&_&_&[(E&_)|(_&E)]); [congruence|exact E].
-  - unfold do_set_label in H.
-    match type of H with context [persist ?a ?b ?c] => destruct (persist a b c) as [s1 ok] eqn:E end.
-    destruct (persist_spec _ _ _ _ _ E) as (A&_&_&_&_&_). destruct ok; inv H; [congruence|].
-    cbn. rewrite A. cbn. rewrite with_lp_lp. destruct (served s) as [a b c0 d e g]; cbn in *. rewrite Hl. reflexivity.
-  - unfold do_del_label in H.
-    match type of H with context [persist ?a ?b ?c] => destruct (persist a b c) as [s1 ok] eqn:E end.
-    destruct (persist_spec _ _ _ _ _ E) as (A&_&_&_&_&_). destruct ok; inv H; [congruence|].
-    cbn. rewrite A. cbn. rewrite with_lp_lp. destruct (served s) as [a b c0 d e g]; cbn in *. rewrite Hl. reflexivity.
+  - unfold do_set_label in H. destruct (swap_persist_spec _ _ _ _ _ H) as (_&_&_&_&[(E&_)|(_&E)]); [congruence|exact E].
+  - unfold do_del_label in H. destruct (swap_persist_spec _ _ _ _ _ H) as (_&_&_&_&[(E&_)|(_&E)]); [congruence|exact E].
   - unfold do_set_version in H. destruct v as [x|]; [|inv H; reflexivity].
     destruct (swap_persist_spec _ _ _ _ _ H) as (_&_&_&_&[(E&_)|(_&E)]); [congruence|exact E].
   - unfold do_set_mode in H. destruct (negb (mode_valid (rm_mode c))); [inv H; reflexivity|].
@@ -212,31 +228,47 @@ Proof.
     destruct (persist_spec _ _ _ _ _ E3) as (A3&_&_&_&_&_). inv H. rewrite A3. cbn. rewrite S2, A. cbn. apply with_rm_back.
 Qed.
 
-(* the served default rule (the effective replication settings while placement rules are on) *)
-Theorem rejected_keeps_rule_partial_pf s o s' r :
-  run_cmd s o = (s', r) -> r <> ROk -> rm_init s = true ->
-  (forall c f, o = OSetReplication c f -> repl_check s c (c_repl (served s)) <> Some true) ->
+(* the served default rule (the effective replication settings while placement rules are on): a rejected change
+   leaves it alone.  0 < max-replicas: the roll-back goes through SetRule, which refuses a non-positive count. *)
+Theorem rejected_keeps_rule_pf s o s' r :
+  run_cmd s o = (s', r) -> r <> ROk -> rp_pr (c_repl (served s)) = true -> 0 < rp_max (c_repl (served s)) ->
   srule s' = srule s.
 Proof.
-  destruct o as [c f|c f|c f|t k v f|t k v f|v f|c f]; cbn [run_cmd]; intros H Hr Hi Hn.
+  destruct o as [c f|c f|c f|t k v f|t k v f|v f|c f]; cbn [run_cmd]; intros H Hr Hp Hm.
   - unfold do_set_schedule in H. destruct (sched_invalid c); [inv H; reflexivity|]. destruct (sched_deprecated c); [inv H; reflexivity|].
     destruct (swap_persist_spec _ _ _ _ _ H) as (E&_); exact E.
   - unfold do_set_replication in H. destruct (repl_invalid c); [inv H; reflexivity|].
-    unfold repl_init in H. rewrite Hi, andb_false_r in H.
-    specialize (Hn c f eq_refl).
-    destruct (repl_check s c (c_repl (served s))) as [[|]|]; [congruence|inv H; reflexivity|].
-    unfold repl_commit in H. cbn [andb] in H.
-    match type of H with context [persist ?a ?b ?c] => destruct (persist a b c) as [s3 ok] eqn:E end.
-    destruct (persist_spec _ _ _ _ _ E) as (_&B&_). destruct ok; inv H; exact B.
+    destruct (repl_init s c (c_repl (served s)) f) as [s1 ie] eqn:Ei.
+    destruct (repl_init_spec _ _ _ _ _ _ Ei) as (_&_&_&K). destruct (K Hp) as [-> ->].
+    destruct (repl_check s c (c_repl (served s))) as [[|]|] eqn:Ec; [|inv H; reflexivity|].
+    + (* the rule is edited (on a copy) *)
+      unfold repl_commit in H. destruct (rp_max c <=? 0); [inv H; reflexivity|].
+      destruct (set_rule_write s (Rule (rp_max c) (rp_labels c)) f 0) as [s2 okr] eqn:Ew.
+      destruct (set_rule_write_spec _ _ _ _ _ _ Ew) as (S2&_&_&_&_&Fl). destruct okr; cbn [negb] in H.
+      2:{ inv H. destruct (Fl eq_refl) as (A&_). exact A. }
+      match type of H with context [persist ?a ?b ?c] => destruct (persist a b c) as [s3 ok] eqn:E end.
+      destruct (persist_spec _ _ _ _ _ E) as (_&B3&_). destruct ok; [inv H; congruence|].
+      assert (Em : (rp_max (c_repl (served s)) <=? 0) = false) by (apply Z.leb_gt; exact Hm). rewrite Em in H. inv H.
+      (* the config write failed, so the fault is not on the second rule write: the roll-back lands *)
+      assert (W1 : wr f GRule 1 = (true, true)).
+      { unfold persist in E. unfold wr in *. destruct f as [|g i k]; [reflexivity|].
+        destruct g; cbn [fgroup_eqb andb] in *; try reflexivity.
+        (* fault on the rule group: then the config write succeeded, contradiction *)
+        inv E. }
+      unfold set_rule_write. rewrite W1. cbn [fst srule set_srule].
+      (* and what it writes is the rule that was served before *)
+      unfold repl_check in Ec. destruct (rp_pr c && repl_changed c (c_repl (served s)))%bool; [|discriminate].
+      destruct (srule s) as [r0|]; [|inv Ec]. inv Ec.
+      match goal with Hx : _ = true |- _ => apply andb_true_iff in Hx as [X1 X2] end.
+      apply Z.eqb_eq in X1. apply str_list_eqb_eq in X2. destruct r0; cbn in *; subst; reflexivity.
+    + unfold repl_commit in H.
+      match type of H with context [persist ?a ?b ?c] => destruct (persist a b c) as [s3 ok] eqn:E end.
+      destruct (persist_spec _ _ _ _ _ E) as (_&B&_). destruct ok; inv H; exact B.
   - unfold do_set_pdserver in H. destruct (negb (dash_keyword (ps_dash c)) && negb (is_member_url _))%bool; [inv H; reflexivity|].
     destruct (pd_invalid _); [inv H; reflexivity|].
     destruct (swap_persist_spec _ _ _ _ _ H) as (E&_); exact E.
-  - unfold do_set_label in H.
-    match type of H with context [persist ?a ?b ?c] => destruct (persist a b c) as [s1 ok] eqn:E end.
-    destruct (persist_spec _ _ _ _ _ E) as (_&B&_). destruct ok; inv H; exact B.
-  - unfold do_del_label in H.
-    match type of H with context [persist ?a ?b ?c] => destruct (persist a b c) as [s1 ok] eqn:E end.
-    destruct (persist_spec _ _ _ _ _ E) as (_&B&_). destruct ok; inv H; exact B.
+  - unfold do_set_label in H. destruct (swap_persist_spec _ _ _ _ _ H) as (E&_); exact E.
+  - unfold do_del_label in H. destruct (swap_persist_spec _ _ _ _ _ H) as (E&_); exact E.
   - unfold do_set_version in H. destruct v as [x|]; [|inv H; reflexivity].
     destruct (swap_persist_spec _ _ _ _ _ H) as (E&_); exact E.
   - unfold do_set_mode in H. destruct (negb (mode_valid (rm_mode c))); [inv H; reflexivity|].
@@ -254,90 +286,90 @@ Qed.
 
 Definition rejected_full : Prop :=
   forall s o s' r, run_cmd s o = (s', r) -> r <> ROk ->
-    served s' = served s /\ (rp_pr (c_repl (served s)) = true -> srule s' = srule s).
+    served s' = served s /\
+    (rp_pr (c_repl (served s)) = true -> 0 < rp_max (c_repl (served s)) -> srule s' = srule s).
+Theorem rejected_full_pf : rejected_full.
+Proof. intros s o s' r H Hr. split; [eapply rejected_keeps_served_pf; eauto|eapply rejected_keeps_rule_pf; eauto]. Qed.
 
 Definition base_conf : conf :=
   Conf (Sched 0 800 700 ["balance-region"; "balance-leader"; "hot-region"] [false; false; false; false; false; false] 0 3)
        (Repl 3 [] "" true false) (PdSrv "auto" 3 true "table") [("reject-leader", [("zone", "z1")])] (4, 0, 0) (RMode "majority" "").
 
-(* S11: the label is already there; the save fails; the roll-back deletes it *)
-Lemma rejected_refuted_label_pf : ~ rejected_full.
-Proof.
-  intros H.
-  specialize (H (boot base_conf) (OSetLabel "reject-leader" "zone" "z1" (Fault GConfig 0 FBefore))).
-  match type of H with forall s' r, ?t = _ -> _ => destruct t as [s' r] eqn:E end.
-  specialize (H s' r eq_refl). vm_compute in E. inv E.
-  assert (N : RStorage <> ROk) by discriminate. destruct (H N) as [A _]. vm_compute in A. discriminate A.
-Qed.
-(* max-replicas 0 is refused by SetRule, after the served default rule has been set to count 0 *)
-Lemma rejected_refuted_rule_pf :
-  exists s' r, run_cmd (boot base_conf) (OSetReplication (Repl 0 [] "" true false) NoFault) = (s', r)
-    /\ r = RRuleContent /\ served s' = served (boot base_conf) /\ srule s' = Some (Rule 0 []) /\ srule (boot base_conf) = Some (Rule 3 []).
-Proof. eexists; eexists. vm_compute. repeat split; reflexivity. Qed.
+(* regressions: the witnesses that refuted the statements before the fix commits, as they behave now *)
+Lemma regression_label_rollback :
+  run_cmd (boot base_conf) (OSetLabel "reject-leader" "zone" "z1" (Fault GConfig 0 FBefore)) = (boot base_conf, RStorage).
+Proof. vm_compute. reflexivity. Qed.
+Lemma regression_rule_not_edited_on_refusal :
+  run_cmd (boot base_conf) (OSetReplication (Repl 0 [] "" true false) NoFault) = (boot base_conf, RRuleContent).
+Proof. vm_compute. reflexivity. Qed.
+Lemma regression_rule_persisted :
+  exists s', run_cmd (boot base_conf) (OSetReplication (Repl 5 ["zone"] "" true false) NoFault) = (s', ROk) /\
+    srule s' = Some (Rule 5 ["zone"]) /\ strule s' = Some (Rule 5 ["zone"]).
+Proof. eexists. vm_compute. repeat split; reflexivity. Qed.
+Lemma regression_rule_labels_rolled_back :
+  exists s', run_cmd (boot base_conf) (OSetReplication (Repl 5 ["zone"] "" true false) (Fault GConfig 0 FBefore)) = (s', RStorage) /\
+    served s' = base_conf /\ srule s' = Some (Rule 3 []) /\ strule s' = Some (Rule 3 []).
+Proof. eexists. vm_compute. repeat split; reflexivity. Qed.
 
 (* ---------- statement 3: an accepted change is what a new leader reloads ---------- *)
 Definition reach (c0 : conf) (ops : list op) : state := run_state run_op (boot c0) ops.
 
-Definition accepted_full : Prop :=
-  forall c0 ops o s', run_cmd (reach c0 ops) o = (s', ROk) ->
-    option_map reload_conf (stored s') = Some (normalise (served s')) /\
-    (rp_pr (c_repl (served s')) = true -> strule s' = srule s').
-
-(* S17: placement rules on, max-replicas 3 -> 5: served rule 5, stored rule 3 *)
-Lemma accepted_refuted_rule_pf : ~ accepted_full.
-Proof.
-  intros H. specialize (H base_conf [] (OSetReplication (Repl 5 [] "" true false) NoFault)).
-  match type of H with forall s', ?t = _ -> _ => destruct t as [s' r] eqn:E end.
-  vm_compute in E. inv E. destruct (H _ eq_refl) as [_ B]. specialize (B eq_refl). vm_compute in B. discriminate B.
-Qed.
-(* trace-region-flow=false is accepted, never written (omitempty), so the documented migration to 127 never happens *)
-Lemma accepted_refuted_trace_pf :
-  exists s', run_cmd (boot base_conf) (OSetPDServer (PdSrv "auto" 3 false "table") NoFault) = (s', ROk) /\
-    option_map reload_conf (stored s') <> Some (normalise (served s')).
-Proof. eexists. split; [vm_compute; reflexivity|]. vm_compute. discriminate. Qed.
-
-(* the invariant of the partial theorem: once the rule manager is initialised, the served default rule
-   is the stored one -- as long as no replication change edits the rule *)
+(* the default rule: once the rule manager is initialised, the served default rule is the stored one, as long as no rule
+   write had an unknown outcome (applied, but reported failed: storage is then ahead of what is served) *)
 Definition rule_inv (s : state) : Prop := rm_init s = true -> srule s = strule s.
-Definition op_no_rule_edit (s : state) (o : op) : Prop :=
-  match o with
-  | OSetReplication c f =>
-      repl_check (fst (repl_init s c (c_repl (served s)) f)) c (c_repl (served s)) <> Some true
-  | _ => True
-  end.
-Fixpoint no_rule_edit (s : state) (ops : list op) : Prop :=
-  match ops with [] => True | o :: r => op_no_rule_edit s o /\ no_rule_edit (fst (run_cmd s o)) r end.
+Definition op_definite (o : op) : Prop :=
+  match o with OSetReplication _ (Fault GRule _ FAfter) => False | _ => True end.
+Fixpoint definite (ops : list op) : Prop := match ops with [] => True | o :: r => op_definite o /\ definite r end.
 
 Lemma rule_frame_persist s f idx s' ok : persist s f idx = (s', ok) -> rule_inv s -> rule_inv s'.
 Proof. intros H I. destruct (persist_spec _ _ _ _ _ H) as (_&B&C&D&_). unfold rule_inv in *. rewrite B, C, D. exact I. Qed.
 
-Lemma rule_inv_step s o s' r : rule_inv s -> op_no_rule_edit s o -> run_cmd s o = (s', r) -> rule_inv s'.
+Lemma set_rule_write_inv s r f idx s' ok :
+  set_rule_write s r f idx = (s', ok) -> (forall i, f <> Fault GRule i FAfter) -> rule_inv s -> rule_inv s'.
 Proof.
-  destruct o as [c f|c f|c f|t k v f|t k v f|v f|c f]; cbn [run_cmd op_no_rule_edit]; intros I Hn H.
+  intros H Hd I. destruct (set_rule_write_spec _ _ _ _ _ _ H) as (_&_&R&_&T&F). unfold rule_inv in *. rewrite R. destruct ok.
+  - destruct (T eq_refl) as [A B]. intros _. congruence.
+  - destruct (F eq_refl) as [A [B|[B W]]]; [rewrite A, B; exact I|].
+    exfalso. unfold wr in W. destruct f as [|g i k]; [discriminate|].
+    destruct (fgroup_eqb g GRule && Nat.eqb i idx)%bool eqn:Eg; [|discriminate].
+    apply andb_true_iff in Eg as [Eg _]. destruct g; try discriminate. destruct k; [discriminate|]. apply (Hd i). reflexivity.
+Qed.
+
+Lemma rule_inv_step s o s' r : rule_inv s -> op_definite o -> run_cmd s o = (s', r) -> rule_inv s'.
+Proof.
+  destruct o as [c f|c f|c f|t k v f|t k v f|v f|c f]; cbn [run_cmd op_definite]; intros I Hd H.
   - unfold do_set_schedule in H. destruct (sched_invalid c); [inv H; exact I|]. destruct (sched_deprecated c); [inv H; exact I|].
     destruct (swap_persist_spec _ _ _ _ _ H) as (A&B&C&_). unfold rule_inv in *. rewrite A, B, C. exact I.
-  - unfold do_set_replication in H. destruct (repl_invalid c); [inv H; exact I|].
-    destruct (repl_init s c (c_repl (served s)) f) as [s1 ie] eqn:Ei. cbn [fst] in Hn.
+  - assert (Hd' : forall i, f <> Fault GRule i FAfter) by (intros i ->; exact Hd).
+    unfold do_set_replication in H. destruct (repl_invalid c); [inv H; exact I|].
+    destruct (repl_init s c (c_repl (served s)) f) as [s1 ie] eqn:Ei.
     assert (I1 : rule_inv s1).
     { unfold repl_init in Ei. destruct (negb (Bool.eqb (rp_pr c) (rp_pr (c_repl (served s)))) && rp_pr c && negb (rm_init s))%bool eqn:Eg; [|inv Ei; exact I].
       apply andb_true_iff in Eg as [_ Eg]. apply negb_true_iff in Eg.
       destruct (strule s) as [r0|] eqn:Es; [inv Ei; unfold rule_inv; cbn; intros _; congruence|].
       destruct (wr_cases f GRule 0) as [W|[W|W]]; rewrite W in Ei; inv Ei; unfold rule_inv; cbn; intros Hi; try congruence; reflexivity. }
     destruct ie; [inv H; exact I1|].
-    destruct (repl_check s1 c (c_repl (served s))) as [[|]|]; [congruence|inv H; exact I1|].
-    unfold repl_commit in H. cbn [andb] in H.
-    match type of H with context [persist ?a ?b ?c] => destruct (persist a b c) as [s3 ok] eqn:E end.
-    assert (I3 : rule_inv s3) by (eapply rule_frame_persist; [exact E|exact I1]).
-    destruct ok; inv H; exact I3.
+    assert (G : forall e, repl_commit s1 c (c_repl (served s)) e f = (s', r) -> rule_inv s').
+    { intros e. unfold repl_commit. destruct e.
+      - destruct (rp_max c <=? 0); [intros H1; inv H1; exact I1|].
+        destruct (set_rule_write s1 (Rule (rp_max c) (rp_labels c)) f 0) as [s2 okr] eqn:Ew.
+        assert (I2 : rule_inv s2) by (eapply set_rule_write_inv; eauto).
+        destruct okr; cbn [negb]; [|intros H1; inv H1; exact I2].
+        match goal with |- context [persist ?a ?b ?c] => destruct (persist a b c) as [s3 ok] eqn:E end.
+        assert (I3 : rule_inv s3) by (eapply rule_frame_persist; [exact E|exact I2]).
+        destruct ok; [intros H1; inv H1; exact I3|].
+        destruct (rp_max (c_repl (served s)) <=? 0); intros H1; inv H1; [exact I3|].
+        match goal with |- context [set_rule_write ?a ?b ?c ?d] => destruct (set_rule_write a b c d) as [s5 ok5] eqn:E5 end.
+        cbn [fst]. eapply set_rule_write_inv; [exact E5|exact Hd'|exact I3].
+      - match goal with |- context [persist ?a ?b ?c] => destruct (persist a b c) as [s3 ok] eqn:E end.
+        assert (I3 : rule_inv s3) by (eapply rule_frame_persist; [exact E|exact I1]).
+        destruct ok; intros H1; inv H1; exact I3. }
+    destruct (repl_check s1 c (c_repl (served s))) as [[|]|]; [apply G with true; exact H|inv H; exact I1|apply G with false; exact H].
   - unfold do_set_pdserver in H. destruct (negb (dash_keyword (ps_dash c)) && negb (is_member_url _))%bool; [inv H; exact I|].
     destruct (pd_invalid _); [inv H; exact I|].
     destruct (swap_persist_spec _ _ _ _ _ H) as (A&B&C&_). unfold rule_inv in *. rewrite A, B, C. exact I.
-  - unfold do_set_label in H.
-    match type of H with context [persist ?a ?b ?c] => destruct (persist a b c) as [s1 ok] eqn:E end.
-    assert (I1 : rule_inv s1) by (eapply rule_frame_persist; [exact E|exact I]). destruct ok; inv H; exact I1.
-  - unfold do_del_label in H.
-    match type of H with context [persist ?a ?b ?c] => destruct (persist a b c) as [s1 ok] eqn:E end.
-    assert (I1 : rule_inv s1) by (eapply rule_frame_persist; [exact E|exact I]). destruct ok; inv H; exact I1.
+  - unfold do_set_label in H. destruct (swap_persist_spec _ _ _ _ _ H) as (A&B&C&_). unfold rule_inv in *. rewrite A, B, C. exact I.
+  - unfold do_del_label in H. destruct (swap_persist_spec _ _ _ _ _ H) as (A&B&C&_). unfold rule_inv in *. rewrite A, B, C. exact I.
   - unfold do_set_version in H. destruct v as [x|]; [|inv H; exact I].
     destruct (swap_persist_spec _ _ _ _ _ H) as (A&B&C&_). unfold rule_inv in *. rewrite A, B, C. exact I.
   - unfold do_set_mode in H. destruct (negb (mode_valid (rm_mode c))); [inv H; exact I|].
@@ -360,18 +392,7 @@ Proof. unfold rule_inv, boot. cbn. reflexivity. Qed.
 Lemma run_op_state s o : fst (run_op s o) = fst (run_cmd s o).
 Proof. unfold run_op. destruct (run_cmd s o); reflexivity. Qed.
 
-Lemma rule_inv_run s ops : rule_inv s -> no_rule_edit s ops -> rule_inv (run_state run_op s ops).
-Proof.
-  revert s; induction ops as [|o r IH]; intros s I H; cbn [run_state]; [exact I|].
-  destruct H as [H1 H2]. rewrite run_op_state. apply IH; [|exact H2].
-  destruct (run_cmd s o) as [s1 r1] eqn:E. cbn [fst]. eapply rule_inv_step; eauto.
-Qed.
-
-Lemma reload_is_normalise c : ps_trace (c_pd c) = true -> reload_conf c = normalise c.
-Proof. unfold reload_conf, normalise. intros ->. reflexivity. Qed.
-
-(* placement rules on means the rule manager is initialised (it is initialised at boot, or by the very change that
-   switches the rules on) *)
+(* placement rules on means the rule manager is initialised (at boot, or by the very change that switches them on) *)
 Definition init_inv (s : state) : Prop := rp_pr (c_repl (served s)) = true -> rm_init s = true.
 
 Lemma init_inv_step s o s' r : init_inv s -> run_cmd s o = (s', r) -> init_inv s'.
@@ -381,7 +402,6 @@ Proof.
     destruct (swap_persist_spec _ _ _ _ _ H) as (_&_&C&_&[(_&E&_)|(_&E)]); unfold init_inv in *; rewrite C, E; [cbn|]; exact I.
   - unfold do_set_replication in H. destruct (repl_invalid c); [inv H; exact I|].
     destruct (repl_init s c (c_repl (served s)) f) as [s1 ie] eqn:Ei.
-    (* after a successful repl_init: placement rules requested => initialised *)
     assert (A : served s1 = served s /\ (rm_init s = true -> rm_init s1 = true) /\ (ie = false -> rp_pr c = true -> rm_init s1 = true)).
     { unfold repl_init in Ei.
       destruct (negb (Bool.eqb (rp_pr c) (rp_pr (c_repl (served s)))) && rp_pr c && negb (rm_init s))%bool eqn:Eg.
@@ -393,29 +413,38 @@ Proof.
         + cbn in Eg. discriminate. }
     destruct A as (S1&K1&K2).
     destruct ie; [inv H; unfold init_inv in *; rewrite S1; intros Hp; apply K1, I, Hp|].
-    assert (G : forall e, repl_commit s1 c (c_repl (served s)) e f = (s', r) -> init_inv s').
-    { intros e. unfold repl_commit. destruct (e && (rp_max c <=? 0))%bool.
-      - intros H1; inv H1. unfold init_inv. destruct e; cbn; rewrite S1; intros Hp; apply K1, I, Hp.
+    (* whatever repl_commit does, it ends with the new replication section (accepted) or the old one (rejected) *)
+    assert (G : forall e, repl_commit s1 c (c_repl (served s)) e f = (s', r) ->
+                (rm_init s' = rm_init s1) /\ (c_repl (served s') = c \/ c_repl (served s') = c_repl (served s))).
+    { intros e. unfold repl_commit. destruct e.
+      - destruct (rp_max c <=? 0); [intros H1; inv H1; split; [reflexivity|right; rewrite S1; reflexivity]|].
+        destruct (set_rule_write s1 (Rule (rp_max c) (rp_labels c)) f 0) as [s2 okr] eqn:Ew.
+        destruct (set_rule_write_spec _ _ _ _ _ _ Ew) as (S2&_&R2&_). destruct okr; cbn [negb].
+        2:{ intros H1; inv H1. split; [exact R2|right; rewrite S2, S1; reflexivity]. }
+        match goal with |- context [persist ?a ?b ?c] => destruct (persist a b c) as [s3 ok] eqn:E end.
+        destruct (persist_spec _ _ _ _ _ E) as (A3&_&_&D3&_). destruct ok.
+        + intros H1; inv H1. split; [rewrite D3; cbn; exact R2|left; rewrite A3; cbn; destruct (served s2); reflexivity].
+        + assert (Q : c_repl (with_repl (served s3) (c_repl (served s))) = c_repl (served s)) by (destruct (served s3); reflexivity).
+          destruct (rp_max (c_repl (served s)) <=? 0); intros H1; inv H1.
+          * split; [cbn; rewrite D3; cbn; exact R2|right; cbn; exact Q].
+          * match goal with |- context [set_rule_write ?a ?b ?c ?d] => destruct (set_rule_write a b c d) as [s5 ok5] eqn:E5 end.
+            destruct (set_rule_write_spec _ _ _ _ _ _ E5) as (S5&_&R5&_). cbn [fst].
+            split; [rewrite R5; cbn; rewrite D3; cbn; exact R2|right; rewrite S5; cbn; exact Q].
       - match goal with |- context [persist ?a ?b ?c] => destruct (persist a b c) as [s3 ok] eqn:E end.
         destruct (persist_spec _ _ _ _ _ E) as (A3&_&_&D3&_). destruct ok; intros H1; inv H1.
-        + unfold init_inv. rewrite A3, D3. destruct e; cbn; intros Hp; apply (K2 eq_refl Hp).
-        + assert (Q : rp_pr (c_repl (with_repl (served s3) (c_repl (served s)))) = rp_pr (c_repl (served s)))
-            by (destruct (served s3); reflexivity).
-          match goal with |- init_inv ?X =>
-            assert (SX : served X = with_repl (served s3) (c_repl (served s))) by (destruct e; reflexivity);
-            assert (RX : rm_init X = rm_init s3) by (destruct e; reflexivity) end.
-          unfold init_inv. rewrite SX, RX, Q, D3. destruct e; cbn; intros Hp; apply K1, I, Hp. }
-    destruct (repl_check s1 c (c_repl (served s))) as [[|]|]; [apply G with true; exact H| |apply G with false; exact H].
+        + split; [rewrite D3; reflexivity|left; rewrite A3; cbn; destruct (served s1); reflexivity].
+        + split; [cbn; rewrite D3; reflexivity|right; cbn; destruct (served s3); reflexivity]. }
+    assert (Fin : (rm_init s' = rm_init s1) /\ (c_repl (served s') = c \/ c_repl (served s') = c_repl (served s)) -> init_inv s').
+    { intros (R&[Q|Q]); unfold init_inv; rewrite Q, R; intros Hp; [apply (K2 eq_refl Hp)|apply K1, I, Hp]. }
+    destruct (repl_check s1 c (c_repl (served s))) as [[|]|]; [apply Fin, (G true), H| |apply Fin, (G false), H].
     inv H. unfold init_inv. rewrite S1. intros Hp; apply K1, I, Hp.
   - unfold do_set_pdserver in H. destruct (negb (dash_keyword (ps_dash c)) && negb (is_member_url _))%bool; [inv H; exact I|].
     destruct (pd_invalid _); [inv H; exact I|].
     destruct (swap_persist_spec _ _ _ _ _ H) as (_&_&C&_&[(_&E&_)|(_&E)]); unfold init_inv in *; rewrite C, E; [cbn|]; exact I.
   - unfold do_set_label in H.
-    match type of H with context [persist ?a ?b ?c] => destruct (persist a b c) as [s1 ok] eqn:E end.
-    destruct (persist_spec _ _ _ _ _ E) as (A&_&_&D&_). destruct ok; inv H; unfold init_inv in *; cbn; rewrite ?A, D; cbn; destruct (served s); exact I.
+    destruct (swap_persist_spec _ _ _ _ _ H) as (_&_&C&_&[(_&E&_)|(_&E)]); unfold init_inv in *; rewrite C, E; [cbn; destruct (served s)|]; exact I.
   - unfold do_del_label in H.
-    match type of H with context [persist ?a ?b ?c] => destruct (persist a b c) as [s1 ok] eqn:E end.
-    destruct (persist_spec _ _ _ _ _ E) as (A&_&_&D&_). destruct ok; inv H; unfold init_inv in *; cbn; rewrite ?A, D; cbn; destruct (served s); exact I.
+    destruct (swap_persist_spec _ _ _ _ _ H) as (_&_&C&_&[(_&E&_)|(_&E)]); unfold init_inv in *; rewrite C, E; [cbn; destruct (served s)|]; exact I.
   - unfold do_set_version in H. destruct v as [x|]; [|inv H; exact I].
     destruct (swap_persist_spec _ _ _ _ _ H) as (_&_&C&_&[(_&E&_)|(_&E)]); unfold init_inv in *; rewrite C, E; [cbn|]; exact I.
   - unfold do_set_mode in H. destruct (negb (mode_valid (rm_mode c))); [inv H; exact I|].
@@ -438,24 +467,23 @@ Qed.
 
 Lemma init_inv_boot c0 : init_inv (boot c0).
 Proof. unfold init_inv, boot. cbn. auto. Qed.
-Lemma init_inv_run s ops : init_inv s -> init_inv (run_state run_op s ops).
-Proof.
-  revert s; induction ops as [|o r IH]; intros s I; cbn [run_state]; [exact I|].
-  rewrite run_op_state. apply IH. destruct (run_cmd s o) as [s1 r1] eqn:E. cbn [fst]. eapply init_inv_step; eauto.
-Qed.
 
-Theorem accepted_partial_pf c0 ops o s' :
-  no_rule_edit (boot c0) (ops ++ [o]) -> run_cmd (reach c0 ops) o = (s', ROk) ->
-  ps_trace (c_pd (served s')) = true ->
-  option_map reload_conf (stored s') = Some (normalise (served s')) /\
-  (rp_pr (c_repl (served s')) = true -> strule s' = srule s').
+(* the full statement: for every history in which no rule write had an unknown outcome, what is accepted is what a
+   new leader reloads (config key, up to the documented normalisation) and, with placement rules on, the stored
+   default rule is the served one *)
+Definition accepted_full : Prop :=
+  forall c0 ops o s', definite (ops ++ [o]) -> run_cmd (reach c0 ops) o = (s', ROk) ->
+    option_map reload_conf (stored s') = Some (normalise (served s')) /\
+    (rp_pr (c_repl (served s')) = true -> strule s' = srule s').
+
+Theorem accepted_full_pf : accepted_full.
 Proof.
-  intros Hn H Ht. split.
-  - rewrite (accepted_config_is_stored_pf _ _ _ H). cbn. f_equal. apply reload_is_normalise; exact Ht.
+  intros c0 ops o s' Hn H. split.
+  - rewrite (accepted_config_is_stored_pf _ _ _ H). reflexivity.
   - intros Hp. unfold reach in H.
-    assert (G : forall s, no_rule_edit s (ops ++ [o]) -> rule_inv s -> init_inv s ->
-              rule_inv (run_state run_op s ops) /\ init_inv (run_state run_op s ops) /\ op_no_rule_edit (run_state run_op s ops) o).
-    { clear. induction ops as [|a r IH]; intros s Hn I J; cbn [app no_rule_edit run_state] in *.
+    assert (G : forall s, definite (ops ++ [o]) -> rule_inv s -> init_inv s ->
+              rule_inv (run_state run_op s ops) /\ init_inv (run_state run_op s ops) /\ op_definite o).
+    { clear. induction ops as [|a r IH]; intros s Hn I J; cbn [app definite run_state] in *.
       - destruct Hn; auto.
       - destruct Hn as [H1 H2]. rewrite run_op_state. destruct (run_cmd s a) as [s1 r1] eqn:E. cbn [fst] in *.
         apply IH; [exact H2|eapply rule_inv_step; eauto|eapply init_inv_step; eauto]. }
